@@ -174,7 +174,10 @@ Lemma handle_sa : forall r a s m oracle,
     handle (set_authz r a) s m oracle = lift a (handle r s m oracle).
 Proof.
   intros. destruct m; unfold handle.
-  - rproj. rewrite publish_sa. destruct (publish _ _ _ _ _ _ _ _ _ _ _) as [[b pg] o]. reflexivity.
+  - rproj. rewrite publish_sa. destruct (publish _ _ _ _ _ _ _ _ _ _ _) as [[b pg] o].
+    change (publish_aborts (cfg_set_authz (r_cfg r) a) s opts topic) with (publish_aborts (r_cfg r) s opts topic).
+    destruct (publish_aborts (r_cfg r) s opts topic); [|reflexivity].
+    rewrite leave_sa. destruct (leave r (s_id s)) as [r1 o1]. reflexivity.
   - rproj. rewrite subscribe_sa. destruct (subscribe _ _ _ _ _ _ _) as [[b pg] o]. reflexivity.
   - rproj. destruct (unsubscribe _ _ _ _ _) as [[b pg] o]. reflexivity.
   - rproj. rewrite register_sa. destruct (register _ _ _ _ _ _) as [[d o] mps].
@@ -195,7 +198,10 @@ Proof.
           change R with (set_authz (r_set_clients (r_set_dealer r d) (put_session (r_clients (r_set_dealer r d)) callee)) a) end.
         apply run_meta_invocation_sa.
   - rproj. destruct (cancel _ _ _ _ _) as [d o]. reflexivity.
-  - rproj. destruct (sync_yield _ _ _ _ _ _) as [d o]. reflexivity.
+  - rproj. destruct (sync_yield _ _ _ _ _ _ _) as [d o].
+    destruct (yield_aborts _ _ _ _ _); [|reflexivity].
+    change (r_set_dealer (set_authz r a) d) with (set_authz (r_set_dealer r d) a).
+    rewrite leave_sa. destruct (leave (r_set_dealer r d) (s_id s)) as [r1 o1]. reflexivity.
   - destruct (negb (ty =? c_INVOCATION)).
     + rewrite leave_sa. destruct (leave r (s_id s)) as [r1 o1]. reflexivity.
     + rproj. destruct (sync_error _ _ _ _ _ _ _) as [d o]. reflexivity.
